@@ -6,6 +6,7 @@ From RecordUpdate Require Import RecordSet.
 From SV Require Import Base.Base IR.State IR.NS IR.Ops Xform.Clone Xform.Strs Xform.Xform Proofs.AssocX Proofs.Frame Proofs.Inv1a Proofs.Inv2a
   Proofs.InvP Proofs.InvW Proofs.C01_full Proofs.Fresh Proofs.NsInv Proofs.CloneInv Proofs.RefK Proofs.CloneRef Proofs.CloneT Proofs.FieldT
   Proofs.XformInv Proofs.CloneFull Proofs.XHistory.
+From SV Require Import Proofs.UniqFresh.
 Import ListNotations RecordSetNotations.
 
 (* ---- what Definition.clone does to references, containment and kinds ---- *)
@@ -142,13 +143,11 @@ Section Round.
       - exact Hin.
       - intros y Hy. destruct (Hf RChildren y Hy) as [A B]. destruct (Hf RCables y Hy) as [C _]. repeat split; assumption. }
     intros x1 Q1.
-    set (named := match get_str (st x1) d str_NAME with Some nm => _ | None => _ end).
+    set (named := rename_block x1 lib d (next s)).
     assert (Hn : XPost QA named).
-    { unfold named. destruct (get_str (st x1) d str_NAME) as [nm|]; [|intros _; exact Q1].
-      cbv zeta. destruct (fresh_ctr _ _ _ _ _ _) as [k|]; [|intro H; discriminate].
-      apply (xpost_liftR QA); [intros _; cbn [st]; apply (qa_struct _ _ (se_dict_set _ _ _ _) Q1)|]. intros x3 Q3.
-      destruct (get_str (st x3) (next s) str_IDENT) as [idv|]; [|intros _; exact Q3].
-      apply (xpost_liftR QA); [intros _; apply (qa_struct _ _ (se_dict_set _ _ _ _) Q3)|]. intros x4 Q4 _. exact Q4. }
+    { unfold XPost. destruct named as [x5 e] eqn:Eb. cbn [fst snd]. intros ->.
+      apply (rename_block_post QA x1 lib d (next s) x5 Q1); [|exact Eb].
+      intros s0 k0 v0 _ H0 _. apply (qa_struct _ _ (se_dict_set _ _ _ _) H0). }
     destruct named as [x5 [e|]]; [intro H; discriminate|].
     assert (Q5 : QA (st x5)) by (apply Hn; reflexivity).
     apply (xpost_liftR QA).
